@@ -178,3 +178,98 @@ Proof.
   rewrite H2. replace (e + 896 =? 2047) with false by lia. reflexivity.
 Qed.
 
+
+(* ---- float32 subnormals ---- *)
+Theorem narrow_widen_subnormal f : in_f32 f -> (f / p23) mod 256 = 0 -> f mod p23 <> 0 -> narrow (widen f) = f.
+Proof.
+  unfold in_f32, p32. intros Hb He Hm0. unfold widen. rewrite He.
+  set (s := f / p31). set (m := f mod p23) in *.
+  assert (Hs : 0 <= s <= 1) by (subst s; unfold p31 in *; lia).
+  assert (Hm : 1 <= m < p23) by (subst m; unfold p23 in *; lia).
+  assert (Hbd : f = s * p31 + m) by (subst s m; unfold p31, p23 in *; lia).
+  clearbody s m. change (0 =? 255) with false. change (0 =? 0) with true. cbv iota.
+  replace (m =? 0) with false by lia. cbv zeta. unfold bitlen.
+  set (k := Z.log2 m + 1).
+  assert (Hl0 : 0 <= Z.log2 m) by apply Z.log2_nonneg.
+  assert (Hl1 : Z.log2 m < 23) by (apply Z.log2_lt_pow2; [lia|unfold p23 in Hm; exact (proj2 Hm)]).
+  assert (Hk : 1 <= k <= 23) by (subst k; lia).
+  assert (Hlog : 2 ^ (k - 1) <= m < 2 * 2 ^ (k - 1)).
+  { destruct (Z.log2_spec m ltac:(lia)) as [A B]. subst k. replace (Z.log2 m + 1 - 1) with (Z.log2 m) by lia.
+    rewrite Z.pow_succ_r in B by lia. lia. }
+  set (h := 2 ^ (k - 1)) in *. set (c := 2 ^ (53 - k)).
+  assert (Hhc : h * c = p52) by (subst h c; rewrite <- Z.pow_add_r by lia; replace (k - 1 + (53 - k)) with 52 by lia; reflexivity).
+  assert (Hc : 2 <= c) by (subst c; change 2 with (2 ^ 1) at 1; apply Z.pow_le_mono_r; lia).
+  assert (Hh : 1 <= h) by (assert (0 < h) by (subst h; apply Z.pow_pos_nonneg; lia); lia).
+  assert (Hmc : p52 + (m - h) * c = m * c) by (rewrite <- Hhc; ring).
+  assert (HM : 0 <= (m - h) * c < p52).
+  { split; [apply Z.mul_nonneg_nonneg; lia|]. rewrite <- Hhc. apply Z.mul_lt_mono_pos_r; lia. }
+  unfold narrow.
+  set (w := s * p63 + (k + 873) * p52 + (m - h) * c).
+  assert (H1 : w / p63 = s).
+  { subst w. rewrite <- Z.add_assoc. apply field_hi. unfold p63, p52 in *; lia. }
+  assert (H2 : (w / p52) mod 2048 = k + 873).
+  { replace w with ((s * 2048 + (k + 873)) * p52 + (m - h) * c) by (subst w; unfold p63, p52; ring).
+    rewrite field_hi by exact HM. apply field_lo. lia. }
+  assert (H3 : w mod p52 = (m - h) * c).
+  { replace w with ((s * 2048 + (k + 873)) * p52 + (m - h) * c) by (subst w; unfold p63, p52; ring). apply field_lo. exact HM. }
+  clearbody w. rewrite H1, H2, H3.
+  replace (k + 873 =? 2047) with false by lia. replace (k + 873 =? 0) with false by lia. cbv zeta.
+  replace (-126 <=? k + 873 - 1023) with false by lia.
+  replace (-97 - (k + 873 - 1023)) with (53 - k) by lia.
+  replace (55 <? 53 - k) with false by lia.
+  unfold rne. fold c. rewrite Hmc. rewrite Z.div_mul by lia. rewrite Z.mod_mul by lia.
+  assert (Hhalf : 1 <= 2 ^ (53 - k - 1)) by (assert (0 < 2 ^ (53 - k - 1)) by (apply Z.pow_pos_nonneg; lia); lia).
+  replace (2 ^ (53 - k - 1) <? 0) with false by lia. replace (0 =? 2 ^ (53 - k - 1)) with false by lia.
+  cbn [orb andb]. rewrite Hbd. reflexivity.
+Qed.
+
+Lemma widen_subnormal_facts f : in_f32 f -> (f / p23) mod 256 = 0 -> f mod p23 <> 0 -> in_f64 (widen f) /\ is_nan64 (widen f) = false.
+Proof.
+  unfold in_f32, p32. intros Hb He Hm0. unfold widen. rewrite He.
+  set (s := f / p31). set (m := f mod p23) in *.
+  assert (Hs : 0 <= s <= 1) by (subst s; unfold p31 in *; lia).
+  assert (Hm : 1 <= m < p23) by (subst m; unfold p23 in *; lia).
+  clearbody s m. change (0 =? 255) with false. change (0 =? 0) with true. cbv iota.
+  replace (m =? 0) with false by lia. cbv zeta. unfold bitlen.
+  set (k := Z.log2 m + 1).
+  assert (Hl0 : 0 <= Z.log2 m) by apply Z.log2_nonneg.
+  assert (Hl1 : Z.log2 m < 23) by (apply Z.log2_lt_pow2; [lia|unfold p23 in Hm; exact (proj2 Hm)]).
+  assert (Hk : 1 <= k <= 23) by (subst k; lia).
+  assert (Hlog : 2 ^ (k - 1) <= m < 2 * 2 ^ (k - 1)).
+  { destruct (Z.log2_spec m ltac:(lia)) as [A B]. subst k. replace (Z.log2 m + 1 - 1) with (Z.log2 m) by lia.
+    rewrite Z.pow_succ_r in B by lia. lia. }
+  set (h := 2 ^ (k - 1)) in *. set (c := 2 ^ (53 - k)).
+  assert (Hhc : h * c = p52) by (subst h c; rewrite <- Z.pow_add_r by lia; replace (k - 1 + (53 - k)) with 52 by lia; reflexivity).
+  assert (Hc : 2 <= c) by (subst c; change 2 with (2 ^ 1) at 1; apply Z.pow_le_mono_r; lia).
+  assert (HM : 0 <= (m - h) * c < p52).
+  { split; [apply Z.mul_nonneg_nonneg; lia|]. rewrite <- Hhc. apply Z.mul_lt_mono_pos_r; lia. }
+  set (w := s * p63 + (k + 873) * p52 + (m - h) * c).
+  split.
+  - unfold in_f64, p64. subst w. unfold p63, p52 in *. lia.
+  - unfold is_nan64.
+    assert (H2 : (w / p52) mod 2048 = k + 873).
+    { replace w with ((s * 2048 + (k + 873)) * p52 + (m - h) * c) by (subst w; unfold p63, p52; ring).
+      rewrite field_hi by exact HM. apply field_lo. lia. }
+    rewrite H2. replace (k + 873 =? 2047) with false by lia. reflexivity.
+Qed.
+
+(* every float32 that is not a NaN *)
+Definition f32_number (f : Z) : Prop := in_f32 f /\ is_nan32 f = false.
+Lemma narrow_widen_number f : f32_number f -> narrow (widen f) = f /\ in_f64 (widen f) /\ is_nan64 (widen f) = false.
+Proof.
+  intros [Hf Hn]. pose proof Hf as Hf'. unfold in_f32, p32 in Hf'.
+  assert (He : 0 <= (f / p23) mod 256 < 256) by (unfold p23; lia).
+  destruct (Z.eq_dec ((f / p23) mod 256) 0) as [E0|E0].
+  - destruct (Z.eq_dec (f mod p23) 0) as [M0|M0].
+    + (* a zero *)
+      assert (f = 0 \/ f = p31) by (unfold p23, p31 in *; lia).
+      apply narrow_widen_plain. split; [exact Hf|]. right. destruct H as [->| ->]; [left; reflexivity|right; left; reflexivity].
+    + split; [apply narrow_widen_subnormal; assumption|apply widen_subnormal_facts; assumption].
+  - destruct (Z.eq_dec ((f / p23) mod 256) 255) as [E1|E1].
+    + (* an infinity: the mantissa is zero since f is not a NaN *)
+      unfold is_nan32 in Hn. rewrite E1 in Hn. change (255 =? 255) with true in Hn. cbn [andb] in Hn.
+      assert (M0 : f mod p23 = 0) by (destruct (f mod p23 =? 0) eqn:X; [lia|discriminate]).
+      assert (f = 255 * p23 \/ f = p31 + 255 * p23) by (unfold p23, p31 in *; lia).
+      apply narrow_widen_plain. split; [exact Hf|]. right. right. right. exact H.
+    + apply narrow_widen_plain. split; [exact Hf|]. left. lia.
+Qed.
